@@ -453,6 +453,9 @@ class Exec(ExprMixin, CallMixin):
       self.unsupp('multi-item with', s)
     item = s.items[0]
     def k(st2, cm):
+      from pyvc.calls import CMValue
+      if isinstance(cm, CMValue):
+        cm.st = cm.st if cm.st is not None else st2
       return self.exec_with(cm, item.optional_vars, s.body, st2, s)
     return self._from_res(self.ev(item.context_expr, st), k)
 
